@@ -36,8 +36,8 @@ The sentinel `distmin = 1e400` (= +inf), two forms (last part of the file):
   code does: `Tie/C20.lean` `tie_proj_polyligne_exact` proves the translation of the current source equal to
   `projPolyligneXYS` on ALL inputs (with `sq v = pow v 2`, the translator's total `pow`), and the driver (`Drv/C20.lean`)
   answers `proj_polyligne` requests with them (`inf := 1.0 / 0.0` at `Float`, `sq` raising where Python's float `**` does).
-The two forms agree whenever every distance the loop meets is `< inf`, `inf` is not below itself-or-a-kept-distance
-(`¬ (d ≤ inf ∧ inf ≤ d)` for a kept `d`), `inf == inf`, and `sq v = v * v` (`Lemmas/ProjSentinel.lean`
+The two forms agree whenever every distance the loop meets is `< inf`, a value `< inf` is not `== inf`, `inf == inf`, and
+`sq v = .ok (v * v)` (`Lemmas/ProjSentinel.lean`
 `projPolyligneXYS_eq`, `projPolyligneS_eq`): finite distances on doubles, any `inf` above the distances in an
 ordered field. -/
 namespace TV.Proj
